@@ -51,7 +51,8 @@ def _load_findings(here, pid):
 def finding_matches(finding, viol):
     """A finding suppresses a violation only for the same clause and when every feature named
     in its `match` has exactly the recorded value in the violation's feature vector."""
-    if finding.get("clause") != viol.get("clause"):
+    fc = finding.get("clause")
+    if viol.get("clause") not in (fc if isinstance(fc, list) else [fc]):
         return False
     feats = viol.get("features") or {}
     m = finding.get("match") or {}
